@@ -214,6 +214,7 @@ class Real:
     and (b) the model's op lines with the real code's answer to each (self.lines)"""
 
     def __init__(self, case, tmp):
+        self.case = case
         self.mode = case['mode']
         self.storage_kind = case.get('storage', 'file')
         self.opts = case.get('opts') or {}      # build=config|ctor, pack_gc, keep_old, cache, pool, lrs, multi, clock
@@ -319,8 +320,7 @@ class Real:
             if o.get('lrs'):
                 dbopts['large_record_size'] = 1000
             if config:
-                if kind == 'demo':
-                    self.top.undo = fs.undo     # DemoStorage copied the unwrapped bound method at __init__
+                pass
             elif kind == 'demo':
                 import random as _random
                 from ZODB.DemoStorage import DemoStorage
@@ -378,6 +378,11 @@ class Real:
                     self.peek = self.b_view()
                 return r
             fs.tpc_finish = finish_then_peek
+            # wrappers copy bound methods of the storage at construction (HexStorage.copied_methods,
+            # DemoStorage._copy_methods_from_changes): point the copies at the observing wrappers
+            for name in ('undo', 'tpc_finish', 'tpc_vote'):
+                if self.top is not fs and name in vars(self.top):
+                    setattr(self.top, name, getattr(fs, name))
 
     def close(self):
         if self.mode == 'db':
@@ -1028,6 +1033,29 @@ def oracle_check(case, events):
         elif kind == 'u':
             outcome, W, DT, classes, nontriv = orc.predict(ev['ids'])
             ev['classes'], ev['W'] = classes, W
+            # what undoLog / undoInfo offered just before: exactly the not-packed transactions, newest first
+            offered = []
+            for t in reversed(orc.txns):
+                if t['packed']:
+                    break
+                offered.append(t['tid'])
+            if ev.get('undo_log') != offered:
+                bad('C06:undo-log-content', 'undoLog offers %s, the transactions not yet packed are %s'
+                    % (ev.get('undo_log'), offered))
+            if prev is not None and 'mid_state' in ev and ev['mid_state'] != prev['state']:
+                bad('C06:staged-undo-visible', 'between the undo calls and the vote the storage answers %s, '
+                    'before the undo it answered %s' % (ev['mid_state'], prev['state']))
+            vp = ev.get('b_vote_peek')
+            if vp is not None:
+                cnt('b-vote-peek')
+            if 'mid_state' in ev:
+                cnt('mid-state-between-undo-and-vote')
+            if isinstance(ev.get('undo_log'), list) and any(t not in ev['undo_log'] for t in ev['ids']):
+                cnt('undo:stale-id-not-offered-by-undoLog')
+            if vp is not None and any(vp.get(o) != v for o, v in ev['pre_view'].items()):
+                bad('C06:voted-undo-visible', 'a connection that began a transaction after the vote and '
+                    'before the finish of the undo of %s read %s, the committed state was %s'
+                    % (ev['ids'], vp, ev['pre_view']))
             stats['nontrivial'] = stats['nontrivial'] or nontriv
             for c in classes.values():
                 cnt('verdict:' + c.split(':')[0])
@@ -1238,8 +1266,49 @@ def gen_history(rng, mode):
             else:
                 sets[name] = v
             written.setdefault(name, []).append(v)
-        ops.append(['w', 't%d' % i, sets])
+        r = rng.random()
+        if mode == 'st' and i > 0 and r < 0.07 and written:
+            # deleteObject records (the object is gone; the deleting transaction can be undone)
+            ops.append(['d', 't%d' % i, sorted(rng.sample(sorted(written), min(len(written), rng.choice([1, 2]))))])
+        elif mode == 'st' and i > 0 and r < 0.15 and written:
+            # restore records: a back pointer to an earlier transaction's data, fresh data, or "gone"
+            spec = {}
+            for name in rng.sample(sorted(written), min(len(written), rng.choice([1, 2]))):
+                q = rng.random()
+                spec[name] = ['copy', 't%d' % rng.randrange(i)] if q < 0.6 else \
+                    (['gone'] if q < 0.75 else ['data', rng.randrange(1, 7)])
+            ops.append(['rs', 't%d' % i, spec])
+        else:
+            ops.append(['w', 't%d' % i, sets])
     return ops, names, written
+
+
+def gen_opts(rng, mode):
+    """construction path and options, clock behaviour, multi-database group"""
+    o = {}
+    r = rng.random()
+    if r < 0.3:
+        o['build'] = 'config'                     # ZODB.config text with every option spelled out
+    if rng.random() < 0.3:
+        o['pack_gc'] = False
+    if rng.random() < 0.3:
+        o['keep_old'] = False
+    if mode == 'db':
+        q = rng.random()
+        if q < 0.15:
+            o['cache'] = rng.choice([0, 1, 3])
+        if rng.random() < 0.15:
+            o['pool'] = 1
+        if rng.random() < 0.2:
+            o['lrs'] = True
+        if o.get('build') != 'config' and rng.random() < 0.3:
+            o['multi'] = True
+        c = rng.random()
+        if c < 0.15:
+            o['clock'] = 'stall'
+        elif c < 0.3:
+            o['clock'] = 'back'
+    return o
 
 
 def gen_tail(rng, mode, labels, names, written, length, counter):
@@ -1272,7 +1341,7 @@ def gen_tail(rng, mode, labels, names, written, length, counter):
         elif r < 0.88:
             ops.append(['pack', rng.choice(labels), rng.random() < 0.5])
         else:
-            ops.append(['reopen', rng.random() < 0.5])
+            ops.append(['reopen', rng.choice([False, True, 'stale'])])
     return ops
 
 
@@ -1313,12 +1382,28 @@ def gen_cases(rng, n_hist, thorough):
             tails.append(t)
         for _ in range(2 if not thorough else 4):
             tails.append(gen_tail(rng, mode, labels, names, dict(written), rng.choice([2, 3, 4, 5]), counter))
+        # a refused undo (several transactions, oldest first: the later ones conflict) directly followed
+        # by the same kind of operation succeeding: undo of the newest, a commit, undo of that
+        if len(labels) >= 2:
+            tails.append([['reopen', False], ['u', 'f0', labels[:3]], ['u', 'f1', [labels[-1]]],
+                          ['w', 'f2', {names[0]: 5}], ['reopen', 'stale'], ['u', 'f3', ['f2']],
+                          ['u', 'f4', labels[:2]], ['u', 'f5', ['f3']]])
+        opts = gen_opts(rng, mode)
         for t in tails:
             c = dict(mode=mode, ops=hist + t)
             if mode == 'db' and (h // 4) % 3:
                 c['storage'] = 'demo' if (h // 4) % 3 == 1 else 'hex'
+            if opts:
+                c['opts'] = opts
             cases.append(c)
     return cases
+
+
+def gen_pairs(rng, cases, n):
+    """two storages / databases alive in one process, their histories interleaved step by step (and a
+    step of the second one between the undo calls and the vote of the first)"""
+    plain = [c for c in cases if c['mode'] in ('st', 'db')]
+    return [dict(mode='pair', a=rng.choice(plain), b=rng.choice(plain)) for _ in range(n)] if plain else []
 
 
 
@@ -1568,10 +1653,87 @@ def is_nontrivial(stats):
     return bool(stats['nontrivial'])
 
 
+def flat_ops(case):
+    """the op list the shrinker works on (a pair: both histories, tagged)"""
+    if case['mode'] == 'pair':
+        return [['a', op] for op in case['a']['ops']] + [['b', op] for op in case['b']['ops']]
+    return case['ops']
+
+
+def with_ops(case, ops):
+    if case['mode'] == 'pair':
+        return dict(case, a=dict(case['a'], ops=[o for w, o in ops if w == 'a']),
+                    b=dict(case['b'], ops=[o for w, o in ops if w == 'b']))
+    return dict(case, ops=ops)
+
+
 def canonical(case):
+    if case['mode'] == 'pair':
+        return ['pair', canonical(case['a']), canonical(case['b'])]
     if case['mode'] == 'session':
         return ['session', [canonical(c) for c in case['cases']]]
-    return [case['mode'], case.get('variant'), case.get('storage'), case['ops']]
+    return [case['mode'], case.get('variant'), case.get('storage'), case.get('opts'), case['ops']]
+
+
+def run_pair_case(case, tmp):
+    A = Real(case['a'], os.path.join(tmp, 'A'))
+    B = Real(case['b'], os.path.join(tmp, 'B'))
+    ctx = A.clock_ctx() or B.clock_ctx()
+    crashed = blocked = None
+    if ctx is not None:
+        ctx.__enter__()
+    try:
+        try:
+            A.start()
+            B.start()
+            na, nb = len(A.ops), len(B.ops)
+            for i in range(max(na, nb)):
+                done = [False]
+
+                def hook(i=i, done=done):
+                    if not done[0] and i < nb:
+                        done[0] = True
+                        B.step(B.ops[i])
+                A.between = hook
+                if i < na:
+                    A.step(A.ops[i])
+                A.between = None
+                hook()
+            A.end()
+            B.end()
+        finally:
+            if ctx is not None:
+                ctx.__exit__(None, None, None)
+    except InfraError:
+        raise
+    except StepBlocked:
+        blocked = True
+        CASE_TIMEOUT[0] = 3.0
+    except Exception as e:
+        crashed = '%s: %s' % (type(e).__name__, e)
+    problems, lines = [], []
+    stats = dict(nontrivial=False, hist={})
+    for which, R in (('A', A), ('B', B)):
+        try:
+            pr, st = oracle_check(R.case, R.events)
+        except StepBlocked:
+            raise
+        except Exception:
+            if not (blocked or crashed):
+                raise
+            pr, st = [], dict(nontrivial=False, hist={})
+        problems += [(sig, 'storage %s of a pair: %s' % (which, what)) for sig, what in pr]
+        stats['nontrivial'] = stats['nontrivial'] or st['nontrivial']
+        for k, n in st['hist'].items():
+            stats['hist'][k] = stats['hist'].get(k, 0) + n
+        if not (blocked or crashed):
+            add_verdict_lines(R, R.events)
+        lines += ([('reset', 'ok', 'I', 'second storage of the pair')] if lines else []) + R.lines
+    if blocked:
+        problems.append(blocked_problem(A.events + B.events))
+    if crashed is not None:
+        problems.append(('C06:exception-in-history', 'the interleaved histories could not be executed: %s' % crashed))
+    return dict(lines=lines, events=A.events + B.events, problems=problems, stats=stats)
 
 
 class StepBlocked(BaseException):
@@ -1618,6 +1780,8 @@ def _judge(case, tmp):
         for sub in case['cases']:
             res = _judge(sub, tmp)
         return res
+    if case['mode'] == 'pair':
+        return run_pair_case(case, tmp)
     if case['mode'] == 'blob':
         res = run_blob_case(case, tmp)
         if any(p[0] == 'C06:step-blocked' for p in res['problems']):
@@ -1724,6 +1888,7 @@ def main(argv=None):
         cases = [c['case'] if 'case' in c and 'mode' not in c else c]
     else:
         cases = load_corpus() + gen_cases(ck.rng, 80 if not ck.thorough else 1000, ck.thorough)
+        cases += gen_pairs(ck.rng, cases, 40 if not ck.thorough else 600)
         cases += gen_blob_cases(ck.rng, 12 if not ck.thorough else 150)
     # 1. real code + direct oracle (worker processes; all randomness was drawn above)
     import multiprocessing
@@ -1758,6 +1923,14 @@ def main(argv=None):
             ck.count('op:' + ev['kind'])
         ck.count('mode:' + case['mode'] + ('/' + case['storage'] if case.get('storage') else '')
                  + ('/' + case['variant'] if case.get('variant') else ''))
+        for sub in ([case['a'], case['b']] if case['mode'] == 'pair' else [case]):
+            for k, v in (sub.get('opts') or {}).items():
+                ck.count('opt:%s=%s' % (k, v))
+            for op in sub.get('ops', []):
+                if op[0] in ('d', 'rs'):
+                    ck.count('op:raw-' + op[0])
+                elif op[0] == 'reopen' and len(op) > 1 and op[1] == 'stale':
+                    ck.count('op:reopen-stale-index')
         nontriv = is_nontrivial(stats)
         ck.case(canonical(case), nontriv,
                 sample=dict(case=case, undo_outcomes=[(e.get('ids'), e['res']) for e in events
@@ -1804,7 +1977,7 @@ def main(argv=None):
 
             def wrap(c, before=before):
                 return dict(mode='session', cases=before + [c]) if before else c
-            small = dict(case, ops=ddmin(case['ops'], lambda ops: has_sig(wrap(dict(case, ops=ops))),
+            small = with_ops(case, ddmin(flat_ops(case), lambda ops: has_sig(wrap(with_ops(case, ops))),
                                          max_tests=40 if blocked else 150))
             try:
                 pr2 = judge_isolated(wrap(small), ck.tmp, timeout=to)['problems']
